@@ -5,7 +5,7 @@ import re
 import time
 
 from framework.checklib import CorrResult
-from harness import patcorr, subcorr
+from harness import gen, patcorr, subcorr
 from translator import t5_patterns, t21_subcircuit_alg
 
 ID = 'C04'
@@ -156,7 +156,28 @@ def corpus_cases():
     return [dict(e['case']) for e in json.loads(CORPUS_FILE.read_text())]
 
 
+def synth_namespace_labels(rng, dump):
+    """relabel a circuit inside the label space of the synthesiser itself ('0', '1', ... for the inputs of a found
+    subcircuit, 's<k>' for its gates; bench files with numeric labels look like this): the renaming of a found
+    subcircuit onto the circuit's labels must not collide with them, whatever leaf stands for whichever input"""
+    labels = [g[0] for g in dump['gates']]
+    n = len(labels)
+    pool = [str(k) for k in range(max(6, n))] + ['s' + str(k) for k in range(max(10, n + 4))]
+    new = rng.sample(pool, n) if rng.random() < 0.5 else (
+        [str(k) for k in range(n)] if rng.random() < 0.5 else ['s' + str(k) for k in rng.sample(range(n + 6), n)])
+    if rng.random() < 0.5:
+        rng.shuffle(new)
+    return gen.rename_dump(dump, dict(zip(labels, new)))
+
+
 def gen_case(rng, i):
+    case = gen_case_plain(rng, i)
+    if rng.random() < 0.2:
+        case['circuit'] = synth_namespace_labels(rng, case['circuit'])
+    return case
+
+
+def gen_case_plain(rng, i):
     r_ = rng.random()
     return {'circuit': subcorr.absorption_circuit(rng) if r_ < 0.12 else subcorr.negated_twin_circuit(rng) if r_ < 0.2 else subcorr.negated_output_cone_circuit(rng) if r_ < 0.26 else subcorr.negated_output_template(rng) if r_ < 0.34
             else subcorr.random_supported_circuit(rng), 'basis': rng.choice(['AIG', 'XAIG', 'FULL', 'aig', 'xaig']),
